@@ -589,3 +589,27 @@ def deferred_stage(chk: Check, rule: str) -> None:
     chk.ob(rule, "ByteInterval._decode_symbolic_expressions:stores-every-entry", bool(stores) and all(stores),
            st.loc(), "the deferred stage must store one expression under its offset for every entry of "
            "the message map, on every path of the loop", 3)
+
+
+def uuid_parse_exact(chk: Check, rule: str, codec_side: bool = False) -> int:
+    """an identifier read from a file or a table is the 16 bytes stored there: ``UUID(bytes=b)``
+    and nothing else.  ``version=`` (or any other extra argument) rewrites bits of the value, so
+    identifiers written by another producer no longer match the references to them"""
+    n = 0
+    for f in chk.repo.all_functions():
+        # the AuxData codecs on one side, the loader and the model classes on the other
+        if (f.module.name in ("serialization", "auxdata")) != codec_side:
+            continue
+        for c in walk_no_nested(f.node):
+            if not (isinstance(c, ast.Call) and (dotted(c.func) or ("",))[-1] == "UUID"):
+                continue
+            kws = {k.arg for k in c.keywords}
+            if "bytes" not in kws:
+                continue
+            n += 1
+            chk.saw(f)
+            extra = sorted(k for k in kws if k != "bytes") + (["positional"] if c.args else [])
+            chk.ob(rule, "%s:UUID(bytes=)-only" % f.qualname, not extra, f.loc(c),
+                   "%s builds an identifier with %s: only the stored 16 bytes may determine it (extra "
+                   "arguments: %s)" % (f.qualname, unparse(c)[:60], ", ".join(str(e) for e in extra)), 1)
+    return n
